@@ -34,7 +34,7 @@ cd /verif
 for p in $PROPS; do
   r=$(VERIF_REPO="$WT/wt" VERIF_OUT_DIR="$OUT" ./check $p quick 2>&1)
   rc=$?
-  echo "CHECK $p rc=$rc $(echo "$r" | grep -m1 'rule=' | cut -c1-260)"
+  echo "CHECK $p rc=$rc $(echo "$r" | grep -v '^KNOWN-FINDING' | grep -m1 'rule=' | cut -c1-260)"
   [ $rc = 2 ] && echo "$r" | tail -5
 done
 rm -rf "$OUT"
